@@ -154,6 +154,18 @@ theorem bindSteps_values_meets_spec (P : Params) (hP : FloatSane P) (cfg : Cfg) 
     rw [hb] at h
     simp [toObs, Spec.specMulti] at h
 
+/-- **A form or multipart request: the form values are bound onto what the parameters left, and that second bind
+    meets the plain oracle** (`bind_meets_spec` for the form tag, on the container `formSrc` names). -/
+theorem app_form_meets_spec (P : Params) (hP : FloatSane P) (fs : List Fld) (ivs rvs : List Val) (h : Http) (strict : Bool)
+    (st : CtxState) (hp : bindMulti P Cfg.default fs (.struct ivs) h.params = .ok (.struct rvs)) (hw : wts fs rvs = true)
+    (hg : Spec.inGrammarFs fs = true) (hs : Spec.srcOK (formSrc h) = true) (hb : h.bodyTags = true)
+    (hct : classifyCT h.ctype = .form ∨ classifyCT h.ctype = .multipart) :
+    (appBind P fs (.struct ivs) h strict st).last = ofOutcome (bind P Cfg.default .form (.struct fs) (.struct rvs) (formSrc h)) ∧
+    Spec.specOK P Cfg.default .form fs (.struct rvs) (formSrc h)
+      (toObs (bind P Cfg.default .form (.struct fs) (.struct rvs) (formSrc h))) = true := by
+  refine ⟨?_, bind_meets_spec P hP Cfg.default .form fs rvs (formSrc h) hw hg hs⟩
+  rcases hct with hct | hct <;> simp [appBind, hp, hb, hct]
+
 /-- a handler that binds once a type without body tags: `bindMulti` over path, query, header, cookie -/
 theorem appRun_no_body_tags (P : Params) (fs : List Fld) (init : Val) (h : Http) (strict : Bool) (hb : h.bodyTags = false) :
     appRun P fs init h [.bind strict] = ofOutcome (bindMulti P Cfg.default fs init h.params) := by
